@@ -30,7 +30,7 @@ def c_destructure(inner, d):
 def c_spread(inner, d):
     return ['fn h%d(u, v, ..w) {' % d, '    return u - v + w[0]', '}', 'x%d := x%d' % (d + 1, d)] + inner + ['args%d := [r%d, 1]' % (d, d + 1), 'r%d := h%d(args%d.., [4, 5]..)' % (d, d, d)]
 def c_this(inner, d):
-    return ['ob%d := {"v": x%d, "m": fn (k) {' % (d, d)] + ind(['x%d := this.v + k' % (d + 1)] + inner + ['this.v = r%d' % (d + 1), 'return this']) + ['}}', 'mm%d := ob%d.m' % (d, d), 'r%d := mm%d(1).v + ob%d["m"](0).v' % (d, d, d)]
+    return ['ob%d := {"v": x%d, "m": fn (k) {' % (d, d)] + ind(['x%d := this.v + k' % (d + 1)] + inner + ['this.v = r%d' % (d + 1), 'return this']) + ['}}', 'mm%d := null' % d, 'mm%d = ob%d.m' % (d, d), 'r%d := mm%d(1).v + ob%d["m"](0).v' % (d, d, d)]
 def c_typefn(inner, d):
     return ['x%d := x%d' % (d + 1, d)] + inner + ['ty%d := r%d->type()' % (d, d + 1), 'r%d := r%d + ty%d->len() + [r%d]->type()->len()' % (d, d + 1, d, d + 1)]
 
@@ -52,7 +52,7 @@ def templates(tier, seed=0):
     pairs = list(itertools.product(names, repeat=2))
     rng = random.Random(seed * 977 + 3)
     if tier == 'quick':
-        rng.shuffle(pairs); pairs = pairs[:70]
+        rng.shuffle(pairs); pairs = pairs[:42]
     for p in pairs: ts.append({'name': '-'.join(p), 'src': build(list(p))})
     if tier == 'thorough':
         triples = list(itertools.product(names, repeat=3)); rng.shuffle(triples)
